@@ -76,7 +76,7 @@ Requests ==
         d \in StartDirs, p \in SlotPaths, rp \in Reps, cp \in Caps}
   \cup {[Q0 EXCEPT !.op = "mkdir", !.method = m, !.d = d, !.path = p] : d \in StartDirs, p \in SlotPaths, m \in {"PUT", "POST"}}
   \cup {[Q0 EXCEPT !.op = "mkdir_named", !.method = "POST", !.d = d, !.path = p, !.name = n, !.replace = rp, !.when_done = wd] :
-        d \in StartDirs, p \in DirPaths, n \in RawNames, rp \in {"none", "false"}, wd \in IF Small THEN {FALSE} ELSE BOOLEAN}
+        d \in StartDirs, p \in DirPaths, n \in RawNames, rp \in {"none", "false"}, wd \in BOOLEAN}
   \cup {[Q0 EXCEPT !.op = "mkdirc", !.method = "POST", !.d = d, !.path = p, !.kids = k] : d \in StartDirs, p \in SlotPaths, k \in KidLists}
   \cup {[Q0 EXCEPT !.op = "mkdirc_named", !.method = "POST", !.d = d, !.path = p, !.name = n, !.kids = k] :
         d \in StartDirs, p \in DirPaths, n \in RawNames, k \in KidLists}
